@@ -35,6 +35,9 @@ type LinkConfig struct {
 	// runs on the repository's real TCP / Unix-stream transport over a loopback connection, and the frames are what
 	// arrives at the other end of the socket
 	Wire string `json:"wire,omitempty"`
+	// Warm: the face is not new - this many maximum-size packets have been fragmented, sent and reassembled on it
+	// (in order, without loss) before the scenario's messages: thousands of fragments in the life of the stores
+	Warm int `json:"warm,omitempty"`
 }
 
 type LinkOp struct {
@@ -71,6 +74,12 @@ func (LinkEngine) Generate(prop string, r *kit.Rand, tier string) *kit.Scenario[
 		c.MTU = r.Range(300, 2000)
 	case 3:
 		c.MTU = r.Range(2000, 8800)
+	}
+	if c.Wire == "" && c.Frag && r.Chance(0.03) {
+		// a long-lived face: more than 4096 fragments (the size of the reassembly store) have passed through it
+		c.MTU = r.Range(128, 420)
+		per := 8800/(c.MTU-60) + 1
+		c.Warm = 4200/per + r.Range(1, 12)
 	}
 	nmsg := r.Range(1, 3)
 	eff := c.MTU - 40
@@ -160,6 +169,10 @@ func (LinkEngine) Simplify(sc *kit.Scenario[LinkConfig, LinkOp]) []*kit.Scenario
 	}
 	if sc.Config.Threads != 1 {
 		modC(func(c *LinkConfig) { c.Threads = 1 })
+	}
+	if sc.Config.Warm > 0 {
+		modC(func(c *LinkConfig) { c.Warm = 0 })
+		modC(func(c *LinkConfig) { c.Warm = c.Warm * 3 / 4 })
 	}
 	if sc.Config.Pop != "clean" {
 		modC(func(c *LinkConfig) { c.Pop = "clean" })
@@ -385,6 +398,25 @@ func (e LinkEngine) Run(t *testing.T, ctx *kit.Ctx, sc *kit.Scenario[LinkConfig,
 		}
 		return nil
 	}
+	for w := 0; w < c.Warm && wire == nil; w++ {
+		raw := makePacket("data", 1000+w%7, 8800)
+		p, _, err := spec.ReadPacket(enc.NewBufferReader(append([]byte(nil), raw...)))
+		if err != nil {
+			panic("harness: generated packet does not parse")
+		}
+		frames = nil
+		tx.VerifSendNow(dispatch.OutPkt{Pkt: &defn.Pkt{L3: p, Raw: append([]byte(nil), raw...), Name: p.Data.NameV, IncomingFaceID: utils.IdPtr(uint64(7))},
+			PitToken: tokenOf(6, c.Threads, w), InFace: utils.IdPtr(uint64(7))})
+		got = got[:0]
+		for _, f := range frames {
+			rx.VerifHandleFrame(append([]byte(nil), f...))
+		}
+		if len(got) != 1 || !bytes.Equal(got[0].raw, raw) {
+			return fail("C10/packet-not-delivered-exactly-once", "warm-up", "maximum-size packet number %d on this face (%d frames, MTU %d, delivered in order): %d deliveries", w+1, len(frames), c.MTU, len(got))
+		}
+		ctx.ProbeN("warm-up-fragments", len(frames))
+	}
+	got = got[:0]
 	for i, op := range sc.Ops {
 		step = i
 		switch op.Op {
